@@ -235,7 +235,7 @@ def mk_polygon3d_line(poly, emb, moved=None):
     return case
 
 
-def mk_polygon3d_segment(poly, emb, a_height=1, polyhedron=False):
+def mk_polygon3d_segment(poly, emb, a_height=1, polyhedron=False, fixed_w=None):
     """lattice polygon in 3-space x segment along the normal through a free point X of the polygon's plane: from X + a n (a concrete) to X + b n with b free
     and a free non-zero weight of either sign on that end point: the segment meets the polygon iff X is in the closed polygon and b <= 0 (for a > 0)"""
     def case(ctx):
@@ -243,8 +243,10 @@ def mk_polygon3d_segment(poly, emb, a_height=1, polyhedron=False):
         o, u, v, nrm = emb
         V3 = [[float(o[i] + x * u[i] + y * v[i]) for i in range(3)] + [1.0] for x, y in poly]
         P = Polygon(*[Point(*w[:3]) for w in V3])
-        s, t, b, w = ctx.real("s"), ctx.real("t"), ctx.real("b"), ctx.real("w")
-        ctx.assume(ctx.neg(ctx.is_zero(w)))
+        s, t, b = ctx.real("s"), ctx.real("t"), ctx.real("b")
+        w = ctx.real("w") if fixed_w is None else fixed_w
+        if fixed_w is None:
+            ctx.assume(ctx.neg(ctx.is_zero(w)))
         ctx.assume(ctx.neg(ctx.is_zero(b - a_height)))
         X = [o[i] + s * u[i] + t * v[i] for i in range(3)] + [1]
         A = [X[i] + a_height * nrm[i] for i in range(3)] + [1]
@@ -329,5 +331,6 @@ def cases(tier, seed):
     add("polygon3d_line_lifted", mk_polygon3d_line(polys[0], embeds[0], moved=(0, 0, 2)), tiers=Q, max_paths=1500)
     for j, emb in enumerate(embeds):
         add(f"polygon3d_segment_e{j}", mk_polygon3d_segment(polys[0], emb, a_height=1 if j != 1 else -2), tiers=(Q, ("attempt",), T)[j], max_paths=3000)
+    add("polygon3d_segment_e1_negw", mk_polygon3d_segment(polys[0], embeds[1], a_height=-2, fixed_w=-1), tiers=T, max_paths=3000)
     add("cube_line", case_cube_line, tiers=Q, max_paths=4000)
     return cs
